@@ -67,6 +67,8 @@ class Two(State):
     first: Any | Missing = MISSING
     second: Any | Missing = MISSING
     third: int | Missing = MISSING
+    fourth: int | None | Missing = MISSING  # None listed before Missing
+    fifth: Sequence[str | None | Missing] = ()
 
 
 CONTAINERS = ("list", "tuple", "dict", "state", "mstate", "qstate", "mlast", "two", "mapmiss")
@@ -294,6 +296,10 @@ def execute(program, ch: Chooser) -> Result:  # noqa: C901, PLR0912, PLR0915
             ("mapping-or-missing/copy", lambda: Holder(v=copy.copy(MapOrMissing(n=2)).kw)),
             ("mapping-or-missing/updated", lambda: Holder(v=MapOrMissing(kw={"a": 1}).updated(kw=MISSING).kw)),
             ("int-or-missing/new", lambda: Holder(v=Two().third)),
+            ("none-before-missing/new", lambda: Holder(v=Two().fourth)),
+            ("none-before-missing/explicit", lambda: Holder(v=Two(fourth=MISSING).fourth)),
+            ("none-before-missing/copy", lambda: Holder(v=copy.deepcopy(Two()).fourth)),
+            ("none-before-missing/in-sequence", lambda: Holder(v=Two(fifth=["a", None, MISSING]).fifth[2])),
         ):
             steps += 1
             try:
@@ -306,6 +312,22 @@ def execute(program, ch: Chooser) -> Result:  # noqa: C901, PLR0912, PLR0915
                 viols.append(viol("singleton", f"after-lookalike/{how}", "the one MISSING object", f"{type(got).__name__}: {got!r}"[:80], earlier=name))
             elif not is_missing(inst.v) or "v" in inst.as_dict():
                 viols.append(viol("predicate", f"after-lookalike/{how}", "is_missing and omitted from as_dict", "not"))
+        # a state holding MISSING (left operand: Missing.__eq__ decides) never equals a state holding a
+        # look-alike; with the look-alike on the left its own __eq__ decides - not checked
+        if name != "forged":
+            for how, left, right in (
+                ("missing==lookalike", lambda: Holder(n=1), lambda: Holder(v=lookalike(name), n=1)),
+                ("nested", lambda: Holder(v=(MISSING, 1), n=1), lambda: Holder(v=(lookalike(name), 1), n=1)),
+            ):
+                steps += 1
+                try:
+                    a_, b_ = left(), right()
+                    eq, ne = (a_ == b_), (a_ != b_)
+                except Exception as exc:  # noqa: BLE001
+                    viols.append(viol("predicate", f"state-eq-raises/{how}/{name}", "False", f"{type(exc).__name__}: {exc}"[:100]))
+                    continue
+                if eq is not False or ne is not True:
+                    viols.append(viol("predicate", f"state-eq/{how}", "== False, != True", [repr(eq), repr(ne)], lookalike=name))
         return Result(f"after/{name}", True, viols, {"value": name, "first": stored}, steps=steps)
     if fam == "predicates":
         name = program["value"]
